@@ -1,9 +1,12 @@
 (* C11 - the generated JSON Schema accepts exactly what the validator accepts (JSON data).
    PARTIAL: the theorem covers scalars (string / integer / float / boolean with length, bound,
    choice, equality, prefix and suffix predicates emitting distinct keywords), equality
-   validators, is-dict, lists with item-count predicates, n-tuples, optionals and caches, nested
-   to any depth. Unions, not-blank, user regexes, uniqueness and repeated keywords are refuted below;
-   uniform tuples, maps, records and named recursive schemas are tied by differential execution only. *)
+   validators, is-dict, lists with item-count predicates, n-tuples, string-keyed maps with size
+   predicates, every record-shaped validator (RecordValidator, DictValidatorAny, Dataclass /
+   NamedTuple / TypedDict validators) with string keys, optional keys and either unknown-key
+   policy, optionals and caches, nested to any depth. Unions, not-blank, user regexes, uniqueness
+   and repeated keywords are refuted below; uniform tuples and named recursive schemas are tied
+   by differential execution only. *)
 From Coq Require Import ZArith List Bool String.
 From KV Require Import Base.PyVal Base.Prims Model.Validator Model.Sem Model.Schema Model.SchemaSat
      Proofs.SatP Corr.UserLib.
@@ -64,6 +67,15 @@ Example C11_refuted_notblank :
 Proof. intros re H. vm_compute in H. vm_compute. rewrite H. reflexivity. Qed.
 
 (* non-vacuity: a nested member of the fragment and both verdicts *)
+Definition rec_sample :=
+  DictAnyV [(VStr (lit "id"), Scalar KInt None [] [PMin (VInt 0) false] []);
+            (VStr (lit "tags"), KeyNotRequired (MapV (Scalar KStr None [] [] []) (Scalar KBool None [] [] []) [PMaxKeys 3] [] None));
+            (VStr (lit "who"), ClassV RkTyped 0%nat [(VStr (lit "k"), (Scalar KStr None [] [] [], true));
+                                                     (VStr (lit "o"), (OptionalV (NoneV None) (Scalar KFloat None [] [] []), false))]
+                                      None None true None)] None None true.
+Example C11_nonvacuous_records : frag no_text rec_sample = true /\ Nat.ltb (vheight rec_sample) 6 = true.
+Proof. split; vm_compute; reflexivity. Qed.
+
 Definition sample :=
   ListV (NTupleV [IsDictV; OptionalV (NoneV None)
            (Scalar KStr None [] [PMinLength 1; PStartsWith (VStr (lit "a")); PChoices [VStr (lit "ab"); VStr (lit "ac")]] [])]
